@@ -139,6 +139,6 @@ example : let st : Style := ⟨some 1, some 2, 4, .inside⟩
     (r.strokeArea st).InRange ∧ (r.fillArea st).InRange ∧
       ((r.fillArea st).rect.size.w = 0 ∨ (r.fillArea st).rect.size.h = 0) := by decide
 
--- [V] FillInStroke for non-zero stroke widths with a non-empty fill area (every point of `fill_area()` = offset(-inside) lies in `stroke_area()` = offset(+outside), also after both sets of radii were confined): carried by correspondence + oracle only (the oracle compares the drawn map with `fill_area()`/`stroke_area()` directly)
+-- [N] FillInStroke for ALL rounded rectangles is false (known finding, see Props/C06/RoundedRectFillInStroke.lean: `not_fill_in_stroke_all`, kernel-decided, replayed on the real code); proved whenever `confine` changes neither area's radii (`fill_in_stroke_partial_fitting` and corollaries)
 -- [V] styled rounded rectangles whose stroke/fill area boxes leave the i32 range (guards false): carried by correspondence + oracle only
 end EG.C06
